@@ -84,15 +84,26 @@ def _box(tier):
                                "passes": 1 + (n + p + b) % 3}
 
 
+def check_witness(data, show=False):
+    w = data["witness"]
+    out = _case(w)
+    if show:
+        print("replaying %s" % C.describe(w))
+    seen = set()
+    res = []
+    for pred, detail in out["viol"]:
+        if pred not in seen:
+            seen.add(pred)
+            res.append((("TwoLevel", pred), w, detail, "config"))
+    return res
+
+
 def run(prop, args):
     rep = R.Report(prop, args, RULE)
     if args.replay:
-        w = R.load_replay(args.replay)["witness"]
-        out = _case(w)
         rep.evaluations = 1
-        print("replaying %s" % C.describe(w))
-        for pred, detail in out["viol"]:
-            rep.add_violation(("TwoLevel", pred), w, detail)
+        for b, w, d, k in check_witness(R.load_replay(args.replay), show=True):
+            rep.add_violation(b, w, d, kind=k)
         return rep.finish()
     tier = args.tier
     # closed form self-check against exhaustive search (the same closed form C05 validates)
@@ -130,6 +141,7 @@ def run(prop, args):
                 seen.add(pred)
                 rep.add_violation(("TwoLevel", pred), cfg, detail)
     rep.extra["block_checks"] = blocks
+    R.run_regress(rep, check_witness)
 
     def shrink(b, w):
         small = C.shrink(w, lambda c: any(p == b[1] for p, _ in _case(c)["viol"]))
